@@ -41,7 +41,7 @@ def collect(chk, prop):
     plans = []
     for i in range(900 if thorough else (150 if prop == "C11" else 90)):
         n = rng.choice([10, 12, 16, 20, 24])
-        sizes = rng.choice([[2], [2, 3], [2, 3], [2, 3, 4], [3], ["d"], [2, "d"], [3, "d"], ["w"], ["w", 2]])
+        sizes = rng.choice([[2], [2, 3], [2, 3], [2, 3, 4], [3], ["d"], [2, "d"], [3, "d"], ["w"], ["w", 2], [3, 2], [4, 2, 3]])   # name order need not be alphabetical
         mode = rng.choice(["random", "holes", "uniform", "assort"]) if prop == "C11" else rng.choice(["holes", "holes", "random"])
         plans.append((n, sizes, rng.choice([0.6, 0.9, 1.2]), mode, rng.choice([0, 1, 2, 3, 5, 8]), rng.choice([-1, -1, 5, 60])))
     for i in range(40 if thorough else 8):      # larger networks, longer histories
@@ -54,8 +54,12 @@ def collect(chk, prop):
             plans.append((rng.choice([12, 16, 24]), [2, 2], rng.choice([1.0, 1.5]), rng.choice(["manyholes", "complement"]), rng.choice([1, 3, 6]), -1))
         # corners whose edges have different topologies (diamond hubs), many absent pairings
         for i in range(400 if thorough else 70):
-            plans.append((rng.choice([12, 16, 24]), rng.choice([["w"], ["w"], ["w", 2], ["d"], [2, "d"]]), rng.choice([0.8, 1.1, 1.5]), rng.choice(["complement", "complement", "holes", "random"]),
+            plans.append((rng.choice([12, 16, 24]), rng.choice([["w"], ["w"], ["w", 2], ["d"], [2, "d"], [3, 2], [3, 2], [4, 2, 3]]), rng.choice([0.8, 1.1, 1.5]), rng.choice(["complement", "complement", "holes", "random"]),
                           rng.choice([1, 3, 6]), -1))
+    if prop == "C12":
+        # longer histories on larger networks whose topology names are not in alphabetical order, most unused pairings removed
+        for i in range(30 if thorough else 6):
+            plans.append((60, rng.choice([[3, 2], [3, 2], [4, 2, 3]]), 0.9, "manyholes", 40, -1))
     for n, sizes, dens, mode, limit, search in plans:
         names = ["2-clique", "2-clique-blue"] if sizes == [2, 2] else None
         es, jd, tops = R.clean_network(rng, n, sizes, dens, names=names)
